@@ -167,3 +167,75 @@ def _pieces(v):
     if isinstance(v, PW):
         return _pieces(v.t) + _pieces(v.f)
     return [v]
+
+
+def r47_no_operand_alias(facts):
+    """NO-OPERAND-ALIAS: an operation of two or more array operands never returns one of its operands (or a clone of it) as its result: such a result is tracked exactly when THAT operand is (not when any operand is), shares its gradient slot and storage, and drops the other operands from the graph"""
+    from .pass_rules import _return_paths
+    from .shape_rules import _lets
+    c = Ctx("R47", facts, "operations of several operands build a result of their own (never hand back an operand)")
+    n_ops = 0
+    for b in facts.fns():
+        if not b.get("thir"):
+            continue
+        out_ty = b.get("output") or ""
+        if out_ty != ARRAY and not out_ty.endswith(">::Output"):
+            continue
+        tr = b.get("impl_trait_def")
+        if tr is not None and not tr.startswith("core::ops::arith::") and not tr.startswith("corgi::"):
+            continue
+        ps = [p for p in facts.params(b) if p.get("pat")]
+        arr_params = {}
+        for p in ps:
+            ty = (p.get("ty") or "")
+            if ty.replace("&", "").strip() == ARRAY and p["pat"].get("k") == "Binding":
+                arr_params[p["pat"]["v"]] = p["pat"].get("name", "?")
+            elif ty in ("(&%s, bool)" % ARRAY,):
+                for v, _, t2, _ in F.pat_bindings(p["pat"]):
+                    if (t2 or "").replace("&", "").strip() == ARRAY:
+                        arr_params[v] = v.split("#")[0]
+        # tuple parameters bound by name and destructured later: `let (a, a_transpose) = a;`
+        env = _lets(facts, b)
+        for n in walk(facts.root(b)):
+            if n.get("k") == "Block":
+                for s_ in n["stmts"]:
+                    if s_["s"] == "let" and s_["pat"].get("k") == "Leaf" and s_.get("init") is not None:
+                        for v, _, t2, _ in F.pat_bindings(s_["pat"]):
+                            if (t2 or "").replace("&", "").strip() == ARRAY:
+                                arr_params[v] = v.split("#")[0]
+        if len(arr_params) < 2:
+            continue
+        n_ops += 1
+        where0 = "%s:%d" % (F.rel(b["file"]), b["sp"][0])
+        inst = "op:%s" % b["def"]
+        verdict = None
+        for ctx, e in _return_paths(facts.root(b)):
+            t = strip(e)
+            hops = 0
+            while isinstance(t, dict) and hops < 6:
+                if t.get("k") in ("VarRef", "UpvarRef") and t["v"] in env and t["v"] not in arr_params:
+                    t = strip(env[t["v"]])
+                elif t.get("k") == "Call" and ((resolved(t) or "") == "<%s as core::clone::Clone>::clone" % ARRAY or (callee(t) or "") == "core::clone::Clone::clone") and t["args"]:
+                    t = F.peel(t["args"][0])
+                elif t.get("k") in ("Borrow", "Deref", "Use"):
+                    t = strip(t["e"])
+                else:
+                    break
+                hops += 1
+            if isinstance(t, dict) and t.get("k") in ("VarRef", "UpvarRef") and t["v"] in arr_params:
+                flags = [cond for cond, truth in F.path_facts(ctx) if any(x.get("k") == "Field" and x.get("name") in ("is_tracked", "keep_gradient") for x in walk(cond))]
+                if flags:
+                    verdict = verdict or ("unk", F.loc(b, e), "returns its operand `%s` on a path conditioned on tracking flags (`%s`)" % (arr_params[t["v"]], show(flags[0])[:50]))
+                else:
+                    verdict = ("bad", F.loc(b, e), "on one of its paths the operation returns (a clone of) its operand `%s` instead of a result of its own: that value is tracked exactly when `%s` is, "
+                               "whatever the other operands are, shares `%s`'s gradient slot and storage, and records no dependence on the other operands"
+                               % (arr_params[t["v"]], arr_params[t["v"]], arr_params[t["v"]]))
+                    break
+        if verdict is None:
+            c.ok(inst, where0, "every path builds a result of its own", nontrivial=False)
+        elif verdict[0] == "bad":
+            c.bad(inst, verdict[1], verdict[2])
+        else:
+            c.unk(inst, verdict[1], verdict[2])
+    c.floor("operations with two or more array operands", n_ops, 8)
+    return c
